@@ -936,7 +936,7 @@ pub fn execute(plan: &PipelinePlan, prop: &'static str) -> Outcome<PipelinePlan>
     // ---- oracles ---------------------------------------------------------------
     let mut viols: Vec<Violation> = Vec::new();
     for p in &sim.panics {
-        if p.file.contains("/verif/") {
+        if p.file.contains("/verif/") || p.env_limit() {
             out.harness_error = Some(format!("driver panic in task {} at {}:{}: {}", p.task, p.file, p.line, p.msg));
         } else {
             // attribute the panic to the property whose component died
